@@ -584,10 +584,18 @@ package ackhandler
 //@   modifies h.bytesInFlight, arg1.includedInBytesInFlight, arg1.StreamFrames, arg1.Frames, sp.history.numOutstanding, sp.history.packets, sp.history.packets[*], sp.history.firstPacketNumber
 
 //@ func (h *sentPacketHistory) RemovePathProbe
-//@   trusted in-place deletion with copy() over struct elements (copy of struct elements is outside the verified subset)
-//@   ensures [at-most-one] len(h.pathProbePackets) == old(len(h.pathProbePackets)) || len(h.pathProbePackets) == old(len(h.pathProbePackets)) - 1
-//@   ensures [found-iff-removed] iff(result != nil, len(h.pathProbePackets) == old(len(h.pathProbePackets)) - 1) || result == nil
+//@   props C06
+//@   let n0 = old(len(h.pathProbePackets))
+//@   ensures [at-most-one] len(h.pathProbePackets) == n0 || len(h.pathProbePackets) == n0 - 1
+//@   ensures [found-iff-removed] iff(result != nil, len(h.pathProbePackets) == n0 - 1) || result == nil
+//@   ensures [removed-iff-present] iff(len(h.pathProbePackets) == n0 - 1, exists(k, 0, n0, old(h.pathProbePackets[k].PacketNumber) == pn))
+//@   ensures [first-match-removed] implies(idx != -1, 0 <= idx && idx < n0 && old(h.pathProbePackets[idx].PacketNumber) == pn && result == old(h.pathProbePackets[idx].packet) && forall(k, 0, idx, old(h.pathProbePackets[k].PacketNumber) != pn))
+//@   ensures [others-kept-in-order] implies(idx != -1, forall(k, 0, len(h.pathProbePackets), h.pathProbePackets[k].PacketNumber == old(h.pathProbePackets[ite(k < idx, k, k + 1)].PacketNumber) && h.pathProbePackets[k].packet == old(h.pathProbePackets[ite(k < idx, k, k + 1)].packet)))
 //@   modifies h.pathProbePackets, h.pathProbePackets[*]
+//@ loop (h *sentPacketHistory) RemovePathProbe #0
+//@   invariant 0 <= rangeidx && rangeidx <= len(h.pathProbePackets) && idx == -1 && packetToDelete == nil
+//@   invariant forall(k, 0, rangeidx, h.pathProbePackets[k].PacketNumber != pn)
+//@   modifies nothing
 
 
 //@ func (h *sentPacketHandler) detectAndRemoveAckedPackets$2
